@@ -13,10 +13,10 @@ P = {
  'C02': ('Refinement theorem (coq/Props/C02.v, Proofs/Refinement.v): the render of every stack of reference-free clean layers, at any nesting depth, is the value (or the constant-key / type-conflict error) of the deep-merge specification Spec/DeepMerge.v; for stacks WITH references the render is the render (and, reference-free twin, the deep merge) of the stack with the references inlined (Proofs/TwinStack.v); kind table of Value::merge + exhaustive small-scope and random differential run, spec evaluated as oracle on every clean-key stack.', 'refinement to the deep-merge specification (simulation, induction on fuel) + correspondence'),
  'C03': ('General path theorem (coq/Props/C03.v, Proofs/PathFacts.v): a reference with a path of any length, assembled from any tokens, renders to the lookup of its segments in the fully rendered parameters, through mappings, references and multiply-defined values; the result does not depend on the order in which the parameters are written nor on which class defines the target (Proofs/OrderIndep.v, DefiningClass.v); uniqueness of rendered values + differential run on acyclic reference graphs with self-consistency (out[k] == out@path) and permutation-twin oracles.', 'walk/lookup commutation by simulation of layer merges + induction on fuel + correspondence + metamorphic oracles'),
  'C04': ('Inline-twin theorem (coq/Props/C04.v, Proofs/Twin.v): replacing, anywhere in the parameters and at any nesting depth, reference strings by the closed values they render to gives parameters that render with the same fuel to the very same result (simulation of the eight mutually recursive functions of the interpreter), also when the replacement is written the way a document writes it (strings as plain strings; second simulation, Proofs/Unrender.v); transparency of a reference layer at a ValueList node + metamorphic twin runs (inline vs reference layers) on the implementation.', 'simulation (refinement between the two renders, induction on fuel) + metamorphic twins + correspondence'),
- 'C05': ('End-to-end template theorem (coq/Props/C05.v, Proofs/TemplateRender.v: a string of any number of literal pieces and references renders to the concatenation of the pieces and of the specified text forms of what the references render to) and theorems about the text form (Spec/TextOf.v) + differential run with the extracted specification text_of applied to the implementation output as oracle.', 'text-form specification + structural induction + correspondence'),
+ 'C05': ('End-to-end template theorems (coq/Props/C05.v, Proofs/TemplateRender.v, TemplateAny.v: a string of any number of literal pieces -- arbitrary characters, escaped markers -- and references renders to the concatenation of the pieces and of the specified text forms of what the references render to) and theorems about the text form (Spec/TextOf.v) + differential run with the extracted specification text_of applied to the implementation output as oracle.', 'text-form specification + structural induction + correspondence'),
  'C06': ('Theorems about the parser model (coq/Props/C06.v: marker-free identity, termination, every template of plain text and simple references of any length parses to its pieces, reference trees nested to any depth within the limit parse back, strings with escaped markers at the top level and inside references parse to the decoded pieces, every string spelled by texts of arbitrary characters (lone $ { } and backslashes included), escapes and reference trees is accepted and parses to the decoded pieces, unclosed / empty references after any such string are errors) + exhaustive comparison of parse trees over the grammar alphabet through the Token hook.', 'parser combinator model + induction + exhaustive correspondence'),
  'C07': ('Closedness and fixed-point theorems over the fuelled interpreter (coq/Props/C07.v: every successful interpolation returns closed data; what a render returns renders again, with the same fuel and against any parameters, to itself) + render-twice differential run with a closedness oracle on the implementation output.', 'invariant by induction on fuel + correspondence'),
- 'C08': ('Termination theorem (coq/Props/C08.v, Proofs/Termination.v: every well-formed parameter mapping, cyclic graphs included, renders to one value or error from some fuel on, never a panic), cycles of whole-value references of any length are reported as loop/depth errors, no placement of a cycle (embedded, list, mapping, layer, member path -- also through referenced and multiply-defined members) yields a value, depth bound and loop error characterisation, what renders at some state renders at every state no further along a chain (Proofs/StateDown.v) + differential run on cyclic/acyclic reference graphs, sharing and chains around the limit 64.', 'termination by a lexicographic measure (reference budget, value structure) + state invariants + correspondence'),
+ 'C08': ('Termination theorem (coq/Props/C08.v, Proofs/Termination.v: every well-formed parameter mapping, cyclic graphs included, renders to one value or error from some fuel on, never a panic), acyclic chains of whole-value references of any length render exactly up to the depth limit of 64 and are depth errors beyond (Proofs/Chains.v), cycles of whole-value references of any length are reported as loop/depth errors, no placement of a cycle (embedded, list, mapping, layer, member path -- also through referenced and multiply-defined members) yields a value, depth bound and loop error characterisation, what renders at some state renders at every state no further along a chain (Proofs/StateDown.v) + differential run on cyclic/acyclic reference graphs, sharing and chains around the limit 64.', 'termination by a lexicographic measure (reference budget, value structure) + state invariants + correspondence'),
  'C09': ('Theorems about insert_impl / Mapping::merge and constant keys, end to end at any nesting depth through the C02 refinement, and for constants delivered by references through the inline-twin theorem (coq/Props/C09.v) + differential run with Spec/DeepMerge.v as oracle.', 'local laws of insert_impl + deep-merge specification + correspondence'),
  'C10': ('Theorems about override keys in insert_impl / Mapping::merge, end to end at any nesting depth through the C02 refinement, and for overrides delivered inside referenced mappings through the inline-twin theorem (coq/Props/C10.v) + differential run with Spec/DeepMerge.v as oracle.', 'local laws of insert_impl + deep-merge specification + correspondence'),
  'C11': ('No-panic and always-returns theorems for the modelled pipeline from the YAML AST on (coq/Props/C11.v: render_node yields one value or error from some fuels on for every include graph and reference graph; every todo!/unreachable!/unwrap/panic! site on a modelled path is an outcome of the model) + crash-freedom streams (AST fuzz, byte-level files, deep inputs, file-system faults) with panic capture and process-death attribution. PARTIAL: byte-level YAML parsing, file-system faults and stack exhaustion live in libraries/runtime and are covered by the correspondence run only.', 'panic sites as outcomes + unreachability lemmas + crash-freedom runs'),
